@@ -175,7 +175,7 @@ def handle (op : String) (args res : List String) : Option Verdict :=
   | "shm" => some (handleShm args res)
   | "mag" => some (handleMag args res)
   | "ngu" => some (handleNgu args res)
-  | "sh" | "grav" | "ng" | "ngj" | "cofbad" => some (.skip "judged by the harness oracles on the implementation")
+  | "sh" | "grav" | "ng" | "ngj" | "cofbad" | "magx" => some (.skip "judged by the harness oracles on the implementation")
   | _ => none
 
 end GeoVerif.Corr.C19
